@@ -208,7 +208,8 @@ Definition format_aggregate (st : pp_state) (t : table) : res (pp_state * str) :
   match t_rows t with
   | [] => Ok (st, firstn (max_width st) (lit "No data") ++ [10%N])     (* cut to the terminal width since 7856f06 *)
   | _ =>
-      do w1 <- fold_left (fun rw d => do w <- rw; update_widths w d) (t_rows t) (Ok (pp_widths st));
+      (* the widths are recomputed from the rows of this table: nothing of an earlier frame survives (fix 24b0d78) *)
+      do w1 <- fold_left (fun rw d => do w <- rw; update_widths w d) (t_rows t) (Ok []);
       let w2 := resize_widths w1 (t_cols t) (max_width st) in
       let wof c := match get c w2 with Some n => n | None => O end in
       if negb (Nat.leb (sum_widths w2) (max_width st)) then Panic
